@@ -18,6 +18,16 @@ def nontrivial(tok, res):
         return res != "-"
     if tok[0] == "wflush":
         return res != "-"
+    if tok[0] == "hoconn":
+        return res in ("park", "407")
+    if tok[0] == "hoclose":
+        return res != "-"
+    if tok[0] == "hoaccept":
+        return res.startswith("got:")
+    if tok[0] == "gjoin":
+        return res in ("ok", "params", "auth", "repeated", "conflict")
+    if tok[0] == "greq":
+        return res.startswith("fwd:") or res == "401"
     return False
 
 
@@ -25,6 +35,10 @@ def result_class(r):
     if ";" in r:   # h2c: class of the opening request; set of stream classes
         first, _, ss = r.partition(";")
         return first.split(":")[0] + ";" + "+".join(sorted({t.split(":")[0] for t in ss.split(",")}))
+    if r.startswith("got:"):
+        return "got"
+    if r[:1].isdigit() and r.endswith((":c", ":o")):   # hoclose: what became of the waiting connections
+        return "+".join(sorted({t.split(":")[1] for t in r.split(",")}))
     if r.startswith("x") and len(r) > 12:   # tview: number of listeners
         return "n=%d" % (r.count(",") + 1)
     toks = r.split(",")
@@ -35,7 +49,7 @@ def result_class(r):
 
 PROP = {
     "level": "proof",
-    "gens": [],
+    "gens": ["CredFacts"],
     "theorems": [
         "Frp.C07.checkAuth_true", "Frp.C07.serve_sound", "Frp.C07.serve_same_route",
         "Frp.C07.serve_unauthorized", "Frp.C07.serveOld_witness", "Frp.C07.serve_witness_fixed",
@@ -65,8 +79,17 @@ PROP = {
         # server-side tcpmux proxy: listener fields and the CONNECT check over all start/stop histories
         "Frp.C07.tmListeners_fields", "Frp.C07.tmListeners_names", "Frp.C07.tmAgree_reach", "Frp.C07.tmProxy_sound",
         "Frp.C07.tmHoldsOn_sound", "Frp.C07.model_tmHoldsOn",
+        # hand-off of a checked CONNECT to its listener over all listen / close / arrive / accept histories; http
+        # load-balancing groups over all join / leave histories (Props/C07Hand.lean)
+        "Frp.C07.muxHandle_lookup", "Frp.C07.hoInv_reach", "Frp.C07.ho_delivered_same_listener",
+        "Frp.C07.ho_delivered_checked", "Frp.C07.ho_parked_checked", "Frp.C07.hoClose_drops",
+        "Frp.C07.ho_head_example", "Frp.C07.ho_retry_witness", "Frp.C07.hoHoldsOn_sound", "Frp.C07.model_hoHoldsOn",
+        "Frp.C07.hgInv_reach", "Frp.C07.hg_fields_agree", "Frp.C07.hg_member_checked", "Frp.C07.hg_serve_sound",
+        "Frp.C07.hg_head_example", "Frp.C07.hg_unchecked_witness", "Frp.C07.hgHoldsOn_sound", "Frp.C07.model_hgHoldsOn",
+        # regenerated ties (translate/gen_credfacts.go): shape of Muxer.handle and HTTPGroup.Register
+        "Frp.C07.handle_code_shape", "Frp.C07.group_code_shape",
     ],
-    "extra_targets": ["Frp.Props.C07Conn"],
+    "extra_targets": ["Frp.Props.C07Conn", "Frp.Props.C07Hand"],
     "engines": [
         {"name": "httpauth", "quick_n": 6000, "thorough_n": 24000, "thorough_seeds": 5,
          # one re-execution (the recorded h2c finding makes every run re-execute: keep that cheap)
@@ -101,7 +124,25 @@ PROP = {
             "evaluates webHoldsOn (handler answered => exact credentials or a handler registered outside the "
             "middleware on purpose, i.e. /healthz). socks5 plugin (NewSocks5Plugin + Handle) in front of the "
             "recording target: version byte, offered methods, sub-negotiation version, user / password exact, near "
-            "miss or other, for configurations with both, only a user, only a password or neither. Non-trivial = a "
+            "miss or other, for configurations with both, only a user, only a password or neither. Hand-off in "
+            "vhost.Muxer.handle (ho… ops, ~10 bursts of 30-60 ops on a fresh real HTTPConnectTCPMuxer over an in-memory "
+            "listener): listeners made with the real Muxer.Listen that the HARNESS accepts from or leaves alone — "
+            "user-routed / unrestricted listeners on one name and on the wildcard levels above it, with equal, "
+            "different or no credentials —, CONNECTs carrying the exact credentials of the listener aimed at, of "
+            "another listener, a wrong password, nothing or a generated header, which stay open and wait in "
+            "`l.accept <- c`; Listener.Close while connections wait (then a sweep of accepts over the listeners left), "
+            "Listener.Accept before and after; every wait is for an event (answer, end of stream, SetDeadline(zero) on "
+            "the server side of the connection, the mark an acceptor writes), bounded by 2 s; oracle hoHoldsOn: "
+            "connection c came out of listener l => c carried l's user name and password. http load-balancing groups "
+            "(g… ops, ~10 bursts on a fresh real HTTPGroupController over the Routers of a real HTTPReverseProxy "
+            "behind a real http.Server): membership histories (joins, leaves, re-joins as configured before, a "
+            "second group on the same route, wrong key, other route parameters, a name that is a member already) x "
+            "credential pairs as a class relative to what the group's members were configured with so far (none / "
+            "the same / another pair / only a user / only a password) in every order; requests aimed at a group's "
+            "route without credentials, with the pair of any member past or present, a member's user with a wrong "
+            "password, other pairs, generated headers; every member has its own backend; oracle hgHoldsOn: the "
+            "backend of member m answered => the request carried the credentials m ITSELF is configured with. "
+            "Non-trivial = a "
             "request that was forwarded / accepted / served or refused for credentials; distinct = distinct (op "
             "line, result)",
     "trusted": COMMON_TRUST + [
@@ -128,6 +169,19 @@ PROP = {
         "(h2cStreamsChecked = true, hooks/C07-fix-h2c-stream-auth.patch) was run against the patched tree",
         "tcpmux proxy: BaseProxy / handleUserTCPConnection are not modelled; 'forwarded' is observed as the proxy's "
         "GetWorkConnFn being called",
+        "hand-off: model Frp/Model/HttpAuthHand.lean written by hand (Muxer.Listen / handle / Listener.Close / Accept as "
+        "a transition system; a send blocked on a channel that is closed panics — Go semantics — and handle then closes "
+        "the connection); that handle has exactly one lookup, checks against the listener it returned and sends to "
+        "that listener only is READ from the source (Gen/CredFacts.lean, C07.handle_code_shape); which of several "
+        "blocked senders an Accept wakes is the runtime's choice (followed relationally). The window between the "
+        "check and the send inside one handle call cannot be scheduled from outside (no gate there): a second lookup "
+        "placed in that window is seen by the regenerated fact only",
+        "http groups: model written by hand (HTTPGroupController.Register / UnRegister, HTTPGroup.Register / UnRegister: "
+        "route copy, the group's own username / password, members with their own configuration); that the fields are "
+        "written in the first-member branch only, that the registered copy is `tmp := routeConfig` unmodified in its "
+        "credentials and that a joiner's Username / Password are compared is READ from the source "
+        "(C07.group_code_shape); the rotation among members is the group's choice (followed relationally); health-check "
+        "driven membership (ChooseEndpointFn) is the same member list",
         "socks5 plugin: armon/go-socks5 ServeConn / authenticate / UserPassAuthenticator / StaticCredentials are "
         "modelled by hand (version, method selection, RFC 1929 sub-negotiation) and tied by the differential run; "
         "the request phase after authentication (address parsing, rules, dial) is not modelled",
@@ -138,6 +192,11 @@ PROP = {
         "not parse => RST_STREAM'",
         "tcpmux proxies are run without loadBalancer.group (the group path hands the same RouteConfig to "
         "TCPMuxGroupCtl.Listen; not driven) and with multiplexer = httpconnect, passthrough off",
+        "hand-off ops: one CONNECT muxer without passthrough; a listener is closed at most once (Listener.Close twice "
+        "panics in frp; BaseProxy.Close calls it once); the https muxer (no credentials) is not driven",
+        "http groups are driven through HTTPGroupController directly (the layer server/proxy/http.go calls with the "
+        "proxy's httpUser / httpPassword in RouteConfig.Username / Password — that mapping is C06's vreg engine), "
+        "origin-form requests only, domains non-empty",
         "web servers are driven with webServer.pprofEnable = false and without TLS; with pprofEnable = true "
         "pkg/util/http/server.go registerPprofHandlers puts /debug/pprof/* on the outer router, outside the auth "
         "middleware (not covered by the model, reported as an observation)",
@@ -147,7 +206,7 @@ PROP = {
 META = {
     "engine": "lean+harness(httpauth)",
     "design_ref": "DESIGN.md §6 C07",
-    "technique": "Lean 4 theorems over all route tables, request targets, request sequences, h2c stream sequences, tcpmux proxy start/stop histories, routers, methods, paths and header bytes (decision logic stated outright) + differential correspondence against the real ServeHTTP (HTTP/1.1 and h2c streams) / tcpmux muxer / server-side tcpmux proxy / middleware / http_proxy, static_file and socks5 plugins / frps dashboard / frpc admin API over TCP",
-    "text": "Proof: for every route table and every request (origin/absolute form, CONNECT, any Authorization / Proxy-Authorization combination) the modelled ServeHTTP forwards to route r only if r is unprotected or the request presents exactly r's user name and password, and the route checked is the route forwarded to; same for the tcpmux CONNECT muxer. The statement is also proved at wire level (serveWire_sound: the target path is only percent-decoded; serve_forward_prefix: the route forwarded to is selected by that path as received, no dot-segment or empty-segment normalisation between check and forwarding). http_proxy plugin: the model is the dispatch of a whole work connection (Handle's CONNECT sniff -> handleConnectReq, otherwise the embedded server's ServeHTTP per request: Auth, then ConnectHandler / HTTPHandler); pluginHandle_sound proves for every request sequence that request i reaches a target only if request i itself carries the exact credentials, pluginHandle_refuses that every other request gets the 407 challenge or is refused and closed. Web endpoints (static_file plugin, frps dashboard, frpc admin API): the model runs from the header bytes to the handler — net/http parseBasicAuth (case-insensitive scheme, base64 decoding with the Lean base64 model, cut at the first colon), HTTPAuthMiddleware comparing the DECODED user and password, gorilla/mux ServeHTTP / Match (clean-path redirect, route loop, method mismatch, sub-routers, middlewares applied to matched routes only) and the three routers as frp builds them. middlewareHdr_sound / _complete: next runs iff the endpoint is unprotected or the header is 'Basic' (any case) + a base64 text that decodes to exactly user:password (a text that only resembles the expected one decodes to other bytes and is refused; two accepted headers decode to the same bytes); webServe_sound: for every router of the modelled shape, every method token, path and header a route handler runs only with exact credentials unless it was registered outside the middleware; staticFile_sound / staticFile_method: static_file has no such handler and only GET reaches the file handler (HEAD and everything else: the router's bare 405); dashboard_sound / admin_sound: everything but /healthz is behind the middleware. socks5 plugin: socks5_sound — with a user name or a password configured the target is dialled only after a user/password sub-negotiation carrying exactly both. h2c: a connection turned into HTTP/2 (Upgrade: h2c or prior knowledge) is modelled as its opening request plus the list of later streams, each a request with its own :authority / :path / authorization; h2cConn_checked_sound proves for the repaired handler that every request of every such connection — the first and each stream — reaches a backend only with the exact credentials of the route selected by ITS OWN host, path and user (h2cStream_checked_same_route). /repo HEAD is modelled as it is (h2cConn_head_streams: every later stream is answered along the opening request's route) and VIOLATES the clause: h2cHead_witness / h2cHeadFull_fails (a stream without credentials reaches the protected backend on a connection opened with them), h2cHead_misroute_witness (a stream for another host is answered by the opening request's backend); what holds there is h2cConn_head_partial; recorded as KNOWN_FINDINGS C07-h2c-later-streams-unchecked with the repair hooks/C07-fix-h2c-stream-auth.patch (switch: HttpAuth.h2cStreamsChecked). Server-side tcpmux proxy: tmListeners_fields / tmListeners_names — every listener httpConnectRun registers (each non-empty custom domain, then subdomain.subDomainHost) has username = httpUser, password = httpPassword, routeByHTTPUser = routeByHTTPUser; tmProxy_sound — after ANY history of proxies started (with roll-back on a refused domain) and closed on one muxer, a CONNECT is handed to a listener of a proxy configured with httpUser only if it carries exactly that proxy's httpUser and httpPassword. The pinned tree violated the http-proxy clause (witness theorem serveOld_witness, replayed on the real code) and was repaired by /repo commit 015f090; the model is of the repaired code. Tie: 6000 generated ops per quick run against the real handlers over loopback TCP / pipes (request paths with dot / empty / percent-encoded segments against tables with protected non-default locations; ~100 multi-request work connections through the http_proxy plugin's Handle; ~1000 requests to the real static_file plugin, real frps dashboards and real frpc admin servers with generated methods, paths and raw Authorization lines; ~250 bare middleware calls; ~100 socks5 negotiations; ~300 h2c connections of which ~100 are upgraded and carry ~250 further streams; ~10 bursts of real tcpmux proxy starts / stops with ~250 real CONNECT requests and ~40 listener dumps), with the Lean predicates (holdsOnWire, plHoldsOn, webHoldsOn, mwHoldsOn, s5HoldsOn, h2cHoldsOn, tmHoldsOn) evaluated on the implementation's answers.",
-    "note": "Trusted: Lean kernel; hand-written model of ServeHTTP/CheckAuth/injectRequestInfoToCtx/h2c stream dispatch/TCPMuxProxy.httpConnectRun+Muxer.Listen/Muxer.handle/HTTPConnectTCPMuxer.auth/HTTPAuthMiddleware/HTTPProxy.Handle+ServeHTTP+handleConnectReq+Auth, of net/http parseBasicAuth + textproto trimming, of gorilla/mux matching for frp's router shapes, of go-socks5 authentication; net/url path unescape; observation of 'a handler answered' from status/body class; harness generators.",
+    "technique": "Lean 4 theorems over all route tables, request targets, request sequences, h2c stream sequences, tcpmux proxy start/stop histories, muxer listen/close/arrive/accept histories, http group join/leave histories, routers, methods, paths and header bytes (decision logic stated outright) + differential correspondence against the real ServeHTTP (HTTP/1.1 and h2c streams) / tcpmux muxer / server-side tcpmux proxy / Muxer hand-off with harness-owned listeners / http load-balancing groups / middleware / http_proxy, static_file and socks5 plugins / frps dashboard / frpc admin API over TCP",
+    "text": "Proof: for every route table and every request (origin/absolute form, CONNECT, any Authorization / Proxy-Authorization combination) the modelled ServeHTTP forwards to route r only if r is unprotected or the request presents exactly r's user name and password, and the route checked is the route forwarded to; same for the tcpmux CONNECT muxer. The statement is also proved at wire level (serveWire_sound: the target path is only percent-decoded; serve_forward_prefix: the route forwarded to is selected by that path as received, no dot-segment or empty-segment normalisation between check and forwarding). http_proxy plugin: the model is the dispatch of a whole work connection (Handle's CONNECT sniff -> handleConnectReq, otherwise the embedded server's ServeHTTP per request: Auth, then ConnectHandler / HTTPHandler); pluginHandle_sound proves for every request sequence that request i reaches a target only if request i itself carries the exact credentials, pluginHandle_refuses that every other request gets the 407 challenge or is refused and closed. Web endpoints (static_file plugin, frps dashboard, frpc admin API): the model runs from the header bytes to the handler — net/http parseBasicAuth (case-insensitive scheme, base64 decoding with the Lean base64 model, cut at the first colon), HTTPAuthMiddleware comparing the DECODED user and password, gorilla/mux ServeHTTP / Match (clean-path redirect, route loop, method mismatch, sub-routers, middlewares applied to matched routes only) and the three routers as frp builds them. middlewareHdr_sound / _complete: next runs iff the endpoint is unprotected or the header is 'Basic' (any case) + a base64 text that decodes to exactly user:password (a text that only resembles the expected one decodes to other bytes and is refused; two accepted headers decode to the same bytes); webServe_sound: for every router of the modelled shape, every method token, path and header a route handler runs only with exact credentials unless it was registered outside the middleware; staticFile_sound / staticFile_method: static_file has no such handler and only GET reaches the file handler (HEAD and everything else: the router's bare 405); dashboard_sound / admin_sound: everything but /healthz is behind the middleware. socks5 plugin: socks5_sound — with a user name or a password configured the target is dialled only after a user/password sub-negotiation carrying exactly both. h2c: a connection turned into HTTP/2 (Upgrade: h2c or prior knowledge) is modelled as its opening request plus the list of later streams, each a request with its own :authority / :path / authorization; h2cConn_checked_sound proves for the repaired handler that every request of every such connection — the first and each stream — reaches a backend only with the exact credentials of the route selected by ITS OWN host, path and user (h2cStream_checked_same_route). /repo HEAD is modelled as it is (h2cConn_head_streams: every later stream is answered along the opening request's route) and VIOLATES the clause: h2cHead_witness / h2cHeadFull_fails (a stream without credentials reaches the protected backend on a connection opened with them), h2cHead_misroute_witness (a stream for another host is answered by the opening request's backend); what holds there is h2cConn_head_partial; recorded as KNOWN_FINDINGS C07-h2c-later-streams-unchecked with the repair hooks/C07-fix-h2c-stream-auth.patch (switch: HttpAuth.h2cStreamsChecked). Server-side tcpmux proxy: tmListeners_fields / tmListeners_names — every listener httpConnectRun registers (each non-empty custom domain, then subdomain.subDomainHost) has username = httpUser, password = httpPassword, routeByHTTPUser = routeByHTTPUser; tmProxy_sound — after ANY history of proxies started (with roll-back on a refused domain) and closed on one muxer, a CONNECT is handed to a listener of a proxy configured with httpUser only if it carries exactly that proxy's httpUser and httpPassword. Hand-off (Props/C07Hand.lean, model Model/HttpAuthHand.lean): Muxer.handle is lookup -> check against THAT listener -> send on THAT listener's accept channel, where the connection waits until the owner accepts; a listener closed meanwhile makes the send fail and handle closes the connection. ho_delivered_same_listener / ho_delivered_checked: over EVERY history of listeners made and closed (also while connections wait), connections arriving and owners accepting, a connection comes out of a listener only if it is the one its credentials were checked against, and only with exactly that listener's user name and password (ho_parked_checked: the same for those still waiting; hoClose_drops: nobody keeps waiting at a closed listener); ho_retry_witness: a handle that looks the route up again after the failed send hands a connection checked as alice / pw1 to the listener protected by bob / pw2. http load-balancing groups: the credentials CheckAuth reads are those of the RouteConfig copy the first member registered, the group keeps its own username / password, every member is configured with its own pair — three places; hg_fields_agree / hg_member_checked: over EVERY history of joins and leaves the route copy's credentials = the group's fields = each member's own configuration, so (hg_serve_sound) a request forwarded along a group's route, whichever member the rotation picks, carried that member's OWN user name and password; hg_unchecked_witness: with joins that do not compare credentials a protected member sits behind a route without credentials. Regenerated ties (translate/gen_credfacts.go -> Gen/CredFacts.lean): handle_code_shape (one getListener call bound to l, never reassigned; the only checkAuth call takes l.username / l.password under the modelled guard and returns on failure; the only send is on l.accept, after the check; the failed-send branch closes the connection) and group_code_shape (g.username / g.password written in the first-member branch only; the registered route is &tmp with tmp := routeConfig, its Username / Password untouched; the join branch refuses a differing Username or Password). The pinned tree violated the http-proxy clause (witness theorem serveOld_witness, replayed on the real code) and was repaired by /repo commit 015f090; the model is of the repaired code. Tie: 6000 generated ops per quick run against the real handlers over loopback TCP / pipes (request paths with dot / empty / percent-encoded segments against tables with protected non-default locations; ~100 multi-request work connections through the http_proxy plugin's Handle; ~1000 requests to the real static_file plugin, real frps dashboards and real frpc admin servers with generated methods, paths and raw Authorization lines; ~250 bare middleware calls; ~100 socks5 negotiations; ~300 h2c connections of which ~100 are upgraded and carry ~250 further streams; ~10 bursts of real tcpmux proxy starts / stops with ~250 real CONNECT requests and ~40 listener dumps; ~10 hand-off bursts: ~150 listeners, ~230 waiting-or-refused CONNECTs, ~115 closes of which ~30 with connections waiting, ~350 accepts; ~10 group bursts: ~300 joins of which ~120 accepted, ~110 leaves, ~280 requests), with the Lean predicates (holdsOnWire, plHoldsOn, webHoldsOn, mwHoldsOn, s5HoldsOn, h2cHoldsOn, tmHoldsOn, hoHoldsOn, hgHoldsOn) evaluated on the implementation's answers.",
+    "note": "Trusted: Lean kernel; hand-written model of ServeHTTP/CheckAuth/injectRequestInfoToCtx/h2c stream dispatch/TCPMuxProxy.httpConnectRun+Muxer.Listen/Muxer.handle (incl. the hand-off to the listener and Listener.Close)/HTTPGroup.Register+UnRegister/HTTPConnectTCPMuxer.auth/HTTPAuthMiddleware/HTTPProxy.Handle+ServeHTTP+handleConnectReq+Auth, of net/http parseBasicAuth + textproto trimming, of gorilla/mux matching for frp's router shapes, of go-socks5 authentication; net/url path unescape; observation of 'a handler answered' from status/body class; harness generators.",
 }
